@@ -110,6 +110,7 @@ class ProgGen:
         self.nl = 0
         self.subs = []                # [(label, items)]
         self.kinds = []
+        self.touch = []               # addresses the fragment being generated may store to
 
     def label(self):
         self.nl += 1
@@ -204,6 +205,8 @@ class ProgGen:
             x = r.randrange(8)
             if x == 0:
                 return K('LD A,(%d)' % a, 0x3A, lo(a), hi(a), w='A')
+            if x in (1, 3, 4, 7):
+                self.touch += [a, a + 1]
             if x == 1:
                 return K('LD (%d),A' % a, 0x32, lo(a), hi(a))
             if x == 2:
@@ -260,6 +263,7 @@ class ProgGen:
         k = r.randrange(16, 100)
         a = self.dw + k
         its = [K('LD HL,%d' % a, 0x21, lo(a), hi(a), w='HL')]
+        self.touch += [a, a + 1, a - 1, a + 2]
         moves = 0
         for _ in range(r.randint(1, 5)):
             x = r.randrange(13)
@@ -302,6 +306,8 @@ class ProgGen:
         for _ in range(r.randint(1, 4)):
             d = r.randrange(-40, 41)
             x = r.randrange(8)
+            if x in (1, 2, 4, 5, 6):
+                self.touch.append(a + d)
             q = r.choice(R8N)
             n = r.randrange(256)
             if x == 0:
@@ -329,6 +335,7 @@ class ProgGen:
     def f_bcde(self):
         r = self.r
         a = self.dw + r.randrange(8, 120)
+        self.touch.append(a)
         if r.random() < .5:
             its = [K('LD BC,%d' % a, 0x01, lo(a), hi(a), w='BC')]
             its += [r.choice([K('LD (BC),A', 0x02), K('LD A,(BC)', 0x0A, w='A')])]
@@ -367,6 +374,7 @@ class ProgGen:
         its = [K('LD HL,%d' % src, 0x21, lo(src), hi(src), w='HL'), K('LD BC,%d' % n, 0x01, n, 0, w='BC')]
         if x < 4:
             its.insert(1, K('LD DE,%d' % dst, 0x11, lo(dst), hi(dst), w='DE'))
+            self.touch += [dst, dst + (n - 1 if x == 0 else 1 - n if x == 1 else 0)]
         if r.random() < .5:
             its = [its[-1]] + its[:-1]
         if x == 0:
@@ -559,10 +567,12 @@ class ProgGen:
         """kinds: list of fragment kind names -> laid out program"""
         frags = []
         for k in kinds:
-            frags.append((k, getattr(self, 'f_' + k)()))
+            self.touch = []
+            its = getattr(self, 'f_' + k)()
+            frags.append((k, its, sorted(set(self.touch))))
         items = []
         bounds_i = []
-        for k, its in frags:
+        for k, its, tch in frags:
             bounds_i.append(len(items))
             items += its
         bounds_i.append(len(items))
@@ -588,7 +598,7 @@ class ProgGen:
                     raise MachineryError('length of %s' % text)
                 ins.append((a, text, bs))
         bounds = [addrs[i] if i < len(addrs) else addr for i in bounds_i]
-        return {'org': self.org, 'ins': ins, 'bounds': bounds, 'kinds': [k for k, _ in frags], 'end': addr}
+        return {'org': self.org, 'ins': ins, 'bounds': bounds, 'kinds': [f[0] for f in frags], 'touch': [f[2] for f in frags], 'end': addr}
 
 
 HANDLERS = [
@@ -631,13 +641,14 @@ def lit(v):
     return {'k': 0, 'v': v, 'f': '', 'i': 0}
 
 
-def fld(name, i=0):
-    return {'k': 1, 'v': 0, 'f': name, 'i': i}
+def fld(name, i=0, off=0):
+    return {'k': 1, 'v': off, 'f': name, 'i': i}
 
 
 def vtext(rng, v):
     if v['k'] == 1:
-        return '{sim[%s]}' % v['f'] if v['f'] != 'ay' else '{sim[ay][%d]}' % v['i']
+        t = '{sim[%s]}' % v['f'] if v['f'] != 'ay' else '{sim[ay][%d]}' % v['i']
+        return t + ('%+d' % v['v'] if v['v'] else '')
     if v['v'] >= 10 and rng.random() < .2:
         return '$%X' % v['v'] if rng.random() < .5 else '$%04x' % v['v']
     return str(v['v'])
@@ -666,6 +677,9 @@ class Session:
         self.nb = len(prog['bounds']) - 1
         self.kinds = prog['kinds']
         self.paged = False
+        self.follow = 'mem'
+        self.recent_stack = False
+        self.recent = []          # addresses the code executed most recently may have stored to
         self.sp_safe = False      # clean sessions: SP known to point into uncontended memory
         self.ival = 63            # the I register the simulator state holds (IM 2 vector tables exist for 63 and 159)
 
@@ -719,6 +733,13 @@ class Session:
         if r.random() < .15 and not self.clean:
             ps.append({'n': 'i', 'v': lit(r.choice([63, 159, 63, 159, 0, 200, 255]))})
         return ps
+
+    def note_span(self, i, j, ints):
+        t = [a for f in self.p['touch'][i:j] for a in f]
+        if ints or 'halt' in self.kinds[i:j]:
+            t += [self.cnt, self.cnt + 1]
+        self.recent = t
+        self.recent_stack = any(k in ('stack', 'call') for k in self.kinds[i:j]) or ints
 
     def new_ival(self, ps, fresh):
         for p in ps:
@@ -811,6 +832,7 @@ class Session:
         ks = self.kinds[i:j]
         if 'page' in ks:
             self.paged = True
+        self.note_span(i, j, execint == 1)
         self.classes.add('sim:run:cont' if cont else 'sim:run:start')
         if clear == 1:
             self.classes.add('sim:clear')
@@ -899,7 +921,12 @@ class Session:
     def op_peek(self):
         r = self.r
         x = r.random()
-        if x < .45:
+        if self.recent and r.random() < .55:
+            a = lit(r.choice(self.recent) & 65535)
+            self.classes.add('peek:stored')
+        elif self.has and getattr(self, 'recent_stack', False) and r.random() < .3:
+            a = fld('SP', 0, r.choice([0, 1, -1, -2, 2]))
+        elif x < .45:
             a = lit(self.dw + r.randrange(128))
         elif x < .55:
             a = lit(self.cnt + r.randrange(2))
@@ -979,6 +1006,8 @@ class Session:
             self.classes.add('ts:exec:execint')
         if 'page' in self.kinds[i:j]:
             self.classes.add('ts:exec:page')
+        self.note_span(i, j, execint == 1)
+        self.follow = 'page' if 'page' in self.kinds[i:j] else 'mem'
         return True
 
     def op_pokes(self):
@@ -1041,6 +1070,7 @@ class Session:
         self.add(op, text, 'audio')
         self.has = True
         self.pos = j
+        self.note_span(a, j, execint > 0)
         if execint:
             self.classes.add('audio:execint%d' % execint)
         return True
@@ -1072,8 +1102,17 @@ def gen_session(rng, prog, kind, is128, pages, dw, cnt, clean, nops):
                 s.op_fields(full=r.random() < .3)
         elif x < .48:
             s.op_ts_exec()
-            if len(s.ops) > n0 and r.random() < .3:
-                s.op_fields(full=r.random() < .5)       # "#TSTATES ... operates on a copy": nothing changed
+            if len(s.ops) > n0:
+                # "#TSTATES ... operates on a copy of the internal memory snapshot": nothing changed
+                if r.random() < .3:
+                    s.op_fields(full=r.random() < .5)
+                if s.recent and r.random() < .6:
+                    s.op_peek()
+                if s.follow == 'page' and r.random() < .7:
+                    s.op_sim_set([])                     # rewrites the sim dictionary (with the snapshot's 7ffd) and nothing else
+                    s.add({'t': 'fields', 'fs': [{'n': '7ffd', 'i': 0}]}, '#EVAL({sim[7ffd]})', 'fields')
+                    pa = 49152 + r.randrange(16384)
+                    s.add({'t': 'peek', 'a': lit(pa)}, '#PEEK%d' % pa, 'peek')
         elif x < .60:
             s.op_ts_static()
         elif x < .76:
